@@ -1480,12 +1480,15 @@ class ArgumentParser(ParserDeprecations, ActionsContainer, ArgumentLinking, argp
                 if action.nargs in {None, "?"} or action.nargs == 0:
                     value = action.type(value)  # type: ignore[operator]
                 elif value is not None:
+                    if not isinstance(value, (list, tuple)):
+                        raise TypeError(f"Expected a list but got: {value!r}")
                     value = [action.type(v) for v in value]  # type: ignore[operator]  # (a new list: the given one is the caller's)
             except (TypeError, ValueError) as ex:
                 raise TypeError(f'Parser key "{key}": {ex}') from ex
         if not is_subcommand and action.choices:
             vals = value if _is_action_value_list(action) else [value]
-            assert isinstance(vals, list)
+            if not isinstance(vals, list):
+                raise TypeError(f'Parser key "{key}": Expected a list but got: {value!r}')
             for val in vals:
                 if val not in action.choices:
                     raise TypeError(f'Parser key "{key}": {val!r} not among choices {action.choices}')
